@@ -9,6 +9,7 @@ def add(pid, engine, category, text, note, technique, design_ref):
 
 SIMNOTE = "Trusted base: SQLite, the Rust toolchain, the harness's own oracle code (self-tested at start-up). Sampled, not exhaustive. Real kanidmd_lib code built from /repo's working tree with feature verif-hooks; replication transport, interval scheduler, wall clock and OS entropy are simulator stubs."
 
+add("C01", "E4 search (sim/src/search.rs)", "exploration", "Seeded populations and histories (renames, deletes, revives, reindex, restart, small ARC caches) with random filter trees (depth ≤3: Eq, Cnt, Pres, LessThan, And, Or, NOT in every placement, empty groups, sub-trigram substrings); each filter runs in a read transaction twice (resolve cache), as exists(), under random index-layout masks and inside a dirty write transaction, and is compared with the harness's evaluator over a full scan of the same transaction.", SIMNOTE, "deterministic simulation (history + cache/index-layout/restart dimensions) + differential against a reference evaluator", "DESIGN.md §5 C01")
 add("C03", E1, "exploration", "Seeded simulation of 1-3 real servers (histories with renames, recycle/revive, purge, reaping, replication incl. uuid-changing conflicts, reindex, restart, small ARC caches); after every commit the index tables, lookup tables and name resolution are compared two-sidedly with keys recomputed from a full scan, plus the server's own verify().", SIMNOTE, "deterministic simulation (seeded cluster histories) + index/lookup mirror oracle after every commit", "DESIGN.md §5 C03")
 add("C08", E1, "exploration", "Seeded concurrent write histories with forced uuid/name collisions on 2-3 real replicas under random three-step replication schedules with loss, duplication and stale ranges, then bounded fault-free full-mesh replication to quiescence; canonical whole-database dumps compared pairwise.", SIMNOTE, "deterministic simulation with fault injection (replication schedules, loss, duplication) + convergence oracle at quiescence", "DESIGN.md §5 C08")
 add("C15", E1, "exploration", "Seeded histories with adversarial (ill-typed, missing-must, disallowed-attribute, unknown-class, multi-value) requests and replicated merges; after every commit every live entry is checked against the schema read in the same transaction; refused requests must leave the database digest unchanged.", SIMNOTE, "deterministic simulation + schema-conformance oracle after every commit", "DESIGN.md §5 C15")
@@ -40,6 +41,7 @@ NOT_APPLICABLE = [
 
 ENGINE_INFO = {
  E1: ("sim/src/cluster.rs", "1-3 real kanidm servers in one process under a simulated clock, replication transport, crash/restart and purge scheduler; seeded workload; step invariants and quiescence oracles"),
+ "E4 search (sim/src/search.rs)": ("sim/src/search.rs", "one real server; population + filter generator + index-layout/caching dimension; differential against the harness's evaluator"),
  "E6 codec (sim-codec)": ("sim-codec/", "real replication codec over real tokio_util framing on a scripted duplex pipe"),
  "E7 actors (sim-actors)": ("sim-actors/", "real libs/actors shadow-built against a tokio facade with a seeded single-threaded executor"),
  "E8a pam (sim-pam)": ("sim-pam/", "test-cfg shadow build of pam_sparkle_common with scripted daemon, shadow database and clock"),
